@@ -12,7 +12,7 @@
 (* ("data": evaluated content differs, "flags": only merge flags differ,    *)
 (* "err": error class / success differs) and printed with the trace id.     *)
 (***************************************************************************)
-EXTENDS AyBuild, Props_C02, Props_C03, Props_C04, Props_C05, Props_C08, Props_C14, Props_C15, IOUtils, TLCExt
+EXTENDS AyBuild, Props_C02, Props_C03, Props_C04, Props_C05, Props_C08, Props_C14, Props_C15, Props_C16, IOUtils, TLCExt
 
 CONSTANT Prop   \* which property's declarative formula is evaluated on the logged outcomes
 
@@ -141,6 +141,8 @@ PropVerdict ==
                          ELSE IF C08_Holds(HistDocs, louts) THEN "holds" ELSE "violated"
       [] Prop = "C14" -> IF lbuilt.status = "none" THEN "outside"
                          ELSE IF C14_Holds(louts, lbuilt) THEN "holds" ELSE "violated"
+      [] Prop = "C16" -> IF ~C16_Judged(HistDocs, louts) THEN "outside"
+                         ELSE IF C16_Holds(HistDocs, louts) THEN "holds" ELSE "violated"
       [] Prop = "C15" -> IF ~C15_InDomain(HistDocs) THEN "outside"
                          ELSE IF C15_TraceHolds(louts, RelOuts) THEN "holds" ELSE "violated"
       [] OTHER -> "none"
@@ -154,6 +156,7 @@ ModelVerdict ==
       [] Prop = "C08" -> IF C08_Holds(HistDocs, accs) /\ C08_ModelNames(HistDocs, accs) THEN "holds" ELSE "violated"
       [] Prop = "C14" -> IF C14_Holds(accs, [status |-> built.status, paths |-> built.paths, calls |-> 0])
                             /\ (phase = "constructed" => C14_Survivors(HistDocs, acc)) THEN "holds" ELSE "violated"
+      [] Prop = "C16" -> IF C16_Holds(HistDocs, accs) THEN "holds" ELSE "violated"
       [] Prop = "C15" -> IF ~C15_InDomain(HistDocs) \/ C15_TraceHolds(accs, ModelRelOuts) THEN "holds" ELSE "violated"
       [] OTHER -> "none"
 
